@@ -20,6 +20,9 @@ def field_mask(lo, hi):
 # every contiguous bit range [lo, hi) within 32 bits; the raw value and the field value stay symbolic
 RANGES = {"%d:%d" % (lo, hi): (lo, hi) for lo in range(0, 32) for hi in range(lo + 1, 33)}
 SPELL = ("list", "name")
+# thorough tier: every range within 32 bits in both spellings, and ranges reaching into the upper half of 64-bit values
+RANGES64 = {"%d:%d" % (lo, hi): (lo, hi) for lo in range(0, 64) for hi in range(lo + 1, 65)
+            if hi > 32 and (lo % 7 == 0 or hi - lo in (1, 2, 8, 33, 63, 64) or hi == 64)}
 
 
 @contract
@@ -29,6 +32,7 @@ class EncodeBits(Contract):
     props = ("C20",)
     cases = {"%s/%s" % (k, sp): (v, sp) for k, v in RANGES.items() if (v[0] % 5 == 0 or v[1] - v[0] in (1, 2, 8, 31, 32)
                                                                         or v[1] == 32) for sp in SPELL}
+    cases_thorough = {"%s/%s" % (k, sp): (v, sp) for k, v in list(RANGES.items()) + list(RANGES64.items()) for sp in SPELL}
 
     def setup(self, w, case):
         (lo, hi), sp = case
@@ -57,6 +61,7 @@ class DecodeBits(Contract):
     target = "canopen.objectdictionary:ODVariable.decode_bits"
     props = ("C20",)
     cases = EncodeBits.cases
+    cases_thorough = EncodeBits.cases_thorough
 
     def setup(self, w, case):
         (lo, hi), sp = case
